@@ -798,7 +798,8 @@ impl Check for C15 {
          and bodies, composite children, set-property / append / pop / set-var operands). The error at the site is provoked by \
          the simulator: failing host stub, missing native, missing variable, wrongly typed operand, non-function callee, and - \
          placed from what a `mark` stub reports just before the site - a failing allocation, a budget expiring on the site's \
-         instruction, a value stack / call stack of exactly insufficient size; plus planted compile errors (empty variable \
+         instruction, a value stack / call stack of exactly insufficient size (also a value stack that runs full exactly while \
+         a closure captures a variable); plus planted compile errors (empty variable \
          name, unresolvable call target, a ForEach with an empty loop-variable name). In front of the interesting card sit 0-3 \
          cards that are assignments, comments, empty composites or loops / ifs with comment bodies. The budget is also swept over \
          the whole run: wherever it expires every trace entry must resolve to a card (or trace[0] to the function epilogue) and \
